@@ -23,6 +23,7 @@ type namedOps struct {
 	o    *scriptOps
 	name string
 	s    *sched.Sched
+	rs   *runState
 }
 
 func (n *namedOps) abs(file string) string {
@@ -33,33 +34,20 @@ func (n *namedOps) abs(file string) string {
 }
 
 func (n *namedOps) ReadRemote(path string) ([]byte, error) {
-	privateOp("ReadRemote", n.abs(path))
+	n.rs.privateOp("ReadRemote", n.abs(path))
 	n.s.Gate(n.who(), "ReadRemote", n.abs(path))
 	// which lookup is this for?  Tile reads run on goroutines started by the lookup's goroutine.
 	th := threadOf()
 	if th == "?" {
 		th = threadOfParent()
 	}
-	data, err := n.o.ReadRemoteTl(path, threadTl(th, ""))
+	data, err := n.o.ReadRemoteTl(path, n.rs.threadTl(th, ""))
 	if f, ok := n.o.parseFile(path); ok && f.Kind == "lookup" && err == nil {
 		if _, hd, ok := n.o.w.ClassifyLookup(data); ok && (hd.Tl == "A" || hd.Tl == "B") {
-			threadTl(th, hd.Tl)
+			n.rs.threadTl(th, hd.Tl)
 		}
 	}
 	return data, err
-}
-
-var threadTlMap sync.Map // thread -> timeline of the lookup response it received last
-
-func threadTl(th, set string) string {
-	if set != "" {
-		threadTlMap.Store(th, set)
-		return set
-	}
-	if v, ok := threadTlMap.Load(th); ok {
-		return v.(string)
-	}
-	return ""
 }
 
 // threadOfParent: the thread of the goroutine that started this one ("created by ... in goroutine N")
@@ -79,17 +67,17 @@ func threadOfParent() string {
 	return "?"
 }
 func (n *namedOps) ReadConfig(file string) ([]byte, error) {
-	privateOp("ReadConfig", n.abs(file))
+	n.rs.privateOp("ReadConfig", n.abs(file))
 	n.s.Gate(n.who(), "ReadConfig", n.abs(file))
 	return n.o.ReadConfig(file)
 }
 func (n *namedOps) WriteConfig(file string, old, new []byte) error {
-	privateOp("WriteConfig", n.abs(file))
+	n.rs.privateOp("WriteConfig", n.abs(file))
 	n.s.Gate(n.who(), "WriteConfig", n.abs(file))
 	return n.o.WriteConfig(file, old, new)
 }
 func (n *namedOps) ReadCache(file string) ([]byte, error) {
-	privateOp("ReadCache", n.abs(file))
+	n.rs.privateOp("ReadCache", n.abs(file))
 	n.s.Gate(n.who(), "ReadCache", n.abs(file))
 	n.o.mu.Lock()
 	n.o.clientCalls = append(n.o.clientCalls, n.name+" ReadCache "+n.abs(file))
@@ -97,7 +85,7 @@ func (n *namedOps) ReadCache(file string) ([]byte, error) {
 	return n.o.ReadCache(file)
 }
 func (n *namedOps) WriteCache(file string, data []byte) {
-	privateOp("WriteCache", n.abs(file))
+	n.rs.privateOp("WriteCache", n.abs(file))
 	n.s.Gate(n.who(), "WriteCache", n.abs(file))
 	n.o.WriteCache(file, data)
 }
@@ -106,36 +94,51 @@ func (n *namedOps) SecurityError(msg string) { n.o.SecurityError(msg) }
 
 // A lookup of a path matching the private pattern list must not cause any external operation (C14).  The
 // goroutine running such a lookup is marked; every external operation checks the mark.
-var (
-	privateNow   sync.Map // goroutine id -> description of the private lookup in progress
-	privateMu    sync.Mutex
-	privateFound []string
-)
+var privateNow sync.Map // goroutine id -> description of the private lookup in progress
 
-func privateOp(op, file string) {
+// runState: what one replay or one recorded run collects besides its events.  One per run: several runs may be in
+// progress in one process (parallel replay workers).
+type runState struct {
+	mu      sync.Mutex
+	private []string          // external operations seen during a private lookup
+	panics  []string          // lookups that panicked
+	thrTl   map[string]string // thread -> timeline of the lookup response it received last
+}
+
+func newRunState() *runState { return &runState{thrTl: map[string]string{}} }
+
+func (rs *runState) privateOp(op, file string) {
 	if d, ok := privateNow.Load(gid()); ok {
-		privateMu.Lock()
-		privateFound = append(privateFound, fmt.Sprintf("%s %s during %s", op, file, d))
-		privateMu.Unlock()
+		rs.mu.Lock()
+		rs.private = append(rs.private, fmt.Sprintf("%s %s during %s", op, file, d))
+		rs.mu.Unlock()
 	}
 }
 
-var schedPanics []string
-
-func takeSchedPanics() []string {
-	privateMu.Lock()
-	defer privateMu.Unlock()
-	out := schedPanics
-	schedPanics = nil
+func (rs *runState) takePrivate() []string {
+	rs.mu.Lock()
+	defer rs.mu.Unlock()
+	out := rs.private
+	rs.private = nil
 	return out
 }
 
-func takePrivateFound() []string {
-	privateMu.Lock()
-	defer privateMu.Unlock()
-	out := privateFound
-	privateFound = nil
+func (rs *runState) takePanics() []string {
+	rs.mu.Lock()
+	defer rs.mu.Unlock()
+	out := rs.panics
+	rs.panics = nil
 	return out
+}
+
+func (rs *runState) threadTl(th, set string) string {
+	rs.mu.Lock()
+	defer rs.mu.Unlock()
+	if set != "" {
+		rs.thrTl[th] = set
+		return set
+	}
+	return rs.thrTl[th]
 }
 
 // goroutine identity: lookups run on goroutines registered by runLookups, so that gates can
@@ -220,6 +223,7 @@ func replaySchedule(c *core.Case, in *behaviourIn) ([]core.Violation, bool) {
 func replayScheduleMode(c *core.Case, in *behaviourIn, eager bool) ([]core.Violation, bool, bool) {
 	w := sumworld.New(in.H, in.Prefix, in.SizeA, in.SizeB)
 	ops := newScriptOps(w, in.Cfg0, in.Served)
+	rs := newRunState()
 	s := sched.New("golang.org/x/mod/sumdb.", "worlds.(*namedOps)", "worlds.runLookups", "worlds.dispatchHook")
 	// the schedule: external operations and hook points in the model's order
 	var items []schedItem
@@ -264,7 +268,7 @@ func replayScheduleMode(c *core.Case, in *behaviourIn, eager bool) ([]core.Viola
 		if clients[cn] != nil {
 			continue
 		}
-		n := &namedOps{o: ops, name: cn, s: s}
+		n := &namedOps{o: ops, name: cn, s: s, rs: rs}
 		cl := sumdb.NewClient(n)
 		cl.SetTileHeight(in.H)
 		if len(in.Skip) > 0 {
@@ -296,11 +300,9 @@ func replayScheduleMode(c *core.Case, in *behaviourIn, eager bool) ([]core.Viola
 	for _, k := range in.Skip {
 		privateKeys[k] = true
 	}
-	takePrivateFound()
-	threadTlMap.Range(func(k, _ any) bool { threadTlMap.Delete(k); return true })
 	for t, keys := range perThread {
 		wg.Add(1)
-		go runLookups(&wg, s, in.ClientOf[t]+"/"+t, t, keys, privateKeys, clients[in.ClientOf[t]], w, func(k int, lines []string, err error) {
+		go runLookups(&wg, s, rs, in.ClientOf[t]+"/"+t, t, keys, privateKeys, clients[in.ClientOf[t]], w, func(k int, lines []string, err error) {
 			omu.Lock()
 			obs = append(obs, obsT{t, k, lines, err})
 			omu.Unlock()
@@ -495,7 +497,7 @@ done:
 	for _, k := range in.Skip {
 		skip[k] = true
 	}
-	for _, f := range takeSchedPanics() {
+	for _, f := range rs.takePanics() {
 		vs = append(vs, core.Violation{Sig: "c14:panic", What: f}, core.Violation{Sig: "c13:panic", What: f})
 	}
 	forked := in.SizeB > 0
@@ -543,7 +545,7 @@ done:
 			vs = append(vs, core.Violation{Sig: "c14:wrong-result", What: fmt.Sprintf("honest server, concurrent Lookup(%s,%s) by %s returned %q, %v", path, vers, o.t, o.lines, o.err)})
 		}
 	}
-	for _, f := range takePrivateFound() {
+	for _, f := range rs.takePrivate() {
 		vs = append(vs, core.Violation{Sig: "c14:skip-not-silent", What: "external operation for a path matching the private pattern list: " + f})
 	}
 	ops.mu.Lock()
@@ -589,7 +591,7 @@ func hookPoint(c *core.Case, h histOp, raw *struct {
 	return h.Point
 }
 
-func runLookups(wg *sync.WaitGroup, s *sched.Sched, client, t string, keys []int, private map[int]bool, cl *sumdb.Client, w *sumworld.World, done func(int, []string, error)) {
+func runLookups(wg *sync.WaitGroup, s *sched.Sched, rs *runState, client, t string, keys []int, private map[int]bool, cl *sumdb.Client, w *sumworld.World, done func(int, []string, error)) {
 	defer wg.Done()
 	g := gid()
 	gidThread.Store(g, t)
@@ -602,9 +604,9 @@ func runLookups(wg *sync.WaitGroup, s *sched.Sched, client, t string, keys []int
 		}
 		lines, err, pan := safeLookup(cl, path, vers)
 		if pan != nil {
-			privateMu.Lock()
-			schedPanics = append(schedPanics, fmt.Sprintf("Lookup(%s,%s) by %s panics: %v", path, vers, t, pan))
-			privateMu.Unlock()
+			rs.mu.Lock()
+			rs.panics = append(rs.panics, fmt.Sprintf("Lookup(%s,%s) by %s panics: %v", path, vers, t, pan))
+			rs.mu.Unlock()
 		}
 		privateNow.Delete(g)
 		done(k, lines, err)
